@@ -152,13 +152,13 @@ var c09Accounts = []string{
 	"liabilities:card", "assets:my bank", "расходы:еда", "expenses:café", "equity:opening-balances",
 	"assets:a_b.c&d", "Assets:Cash",
 }
-var c09AccountsNB = []string{"assets:\U0001F4B0 gold", "expenses:\U0001D11E"}
+var c09AccountsNB = []string{"assets:\U0001F4B0 gold", "expenses:\U0001D11E", "a\U0001F600b:c", "\U00010000x:y z", "fun:\U0001F600\U0001F600"}
 
 var c09Payees = []string{
 	"Shop", "Grocery Store", "Café Roma", "Landlord", "Employer Inc", "Über shop", "shop",
 	"Coffee & more", "Магазин",
 }
-var c09PayeesNB = []string{"Pizza \U0001F355", "\U0001F600 bar"}
+var c09PayeesNB = []string{"Pizza \U0001F355", "\U0001F600 bar", "\U0001D11E music \U0001D11E", "b\U0010FFFFend"}
 
 var c09Numbers = []string{"5", "12.50", "1,234.56", "0.5", "3", "100", "42.00", "7.125"}
 
@@ -613,7 +613,9 @@ func genC09Scenario(c *Ctx, r *rand.Rand) *c09Scenario {
 	}
 	names := pick(r, nameSets)
 	edges := c09Graph(r, n)
-	nb := r.IntN(6) == 0
+	// characters outside the BMP in accounts, payees and comments: the server converts rune
+	// columns to UTF-16 units at the protocol boundary, so these sessions are judged like any other
+	nb := r.IntN(3) == 0
 	o := c09Opts{nbText: nb, odd: r.IntN(4) == 0, tricky: r.IntN(3) == 0}
 	pool := c09MakePool(r, nb)
 	if nb {
@@ -862,14 +864,17 @@ func (s *c09Session) rel(p string) string {
 	return p
 }
 
-// resolvedFor mirrors Server.resolvedWithPrimaryPath through the exported accessors.
-func (s *c09Session) resolvedFor(rel string) (*include.ResolvedJournal, string) {
+// resolvedFor mirrors Server.resolvedWithPrimaryPath through the exported accessors; the third
+// result tells whether the workspace view is used (positions of open files are then converted
+// with their buffers; otherwise only the requesting document's buffer is used, every other file
+// is read from disk).
+func (s *c09Session) resolvedFor(rel string) (*include.ResolvedJournal, string, bool) {
 	if ws := s.srv.Workspace(); ws != nil {
 		if r := ws.GetResolved(); r != nil {
-			return r, s.rel(ws.RootJournalPath())
+			return r, s.rel(ws.RootJournalPath()), true
 		}
 	}
-	return s.srv.GetResolved(s.uri(rel)), rel
+	return s.srv.GetResolved(s.uri(rel)), rel, false
 }
 
 func (s *c09Session) resolvedJ(r *include.ResolvedJournal) any {
@@ -1145,9 +1150,9 @@ func (s *c09Session) run(reqs []c09Req, rename bool) map[string]any {
 	after := []any{}
 	for _, q := range reqs {
 		if _, ok := resIdx[q.Cur]; !ok {
-			r, pp := s.resolvedFor(q.Cur)
+			r, pp, wsView := s.resolvedFor(q.Cur)
 			resIdx[q.Cur] = len(resolveds)
-			resolveds = append(resolveds, J{"r": s.resolvedJ(r), "pp": pp})
+			resolveds = append(resolveds, J{"r": s.resolvedJ(r), "pp": pp, "ws": wsView})
 		}
 		cj, _ := s.tree.parse(byPath[q.Cur].Buf)
 		reqJ = append(reqJ, J{"cur": q.Cur, "pos": []any{q.Line, q.Ch}, "incl": q.Incl, "new": hx(q.New),
